@@ -194,9 +194,12 @@ def main(argv=None):
         return 3
     sel = [i for i, c in enumerate(reg.order) if prop in contract_props(c) and c.verify
            and (a.only is None or a.only in c.target)]
-    idxs = [i for i in sel if reg.order[i].deductive]
+    def _proved_here(c):
+        return c.deductive and (c.prove_in != "thorough" or a.tier == "thorough")
+    idxs = [i for i in sel if _proved_here(reg.order[i])]
     bounded_only = [i for i in sel if not reg.order[i].deductive]
-    assumed = [c for c in reg.order if prop in contract_props(c) and not c.verify]
+    # assumed in this run: trusted contracts, and contracts whose proof is scheduled for the thorough tier only
+    assumed = [c for c in reg.order if prop in contract_props(c) and (not c.verify or (c.deductive and not _proved_here(c)))]
     if not sel:
         print(f"CHECKER-ERROR property={prop} no contracts registered (zero obligations)")
         return 3
